@@ -113,7 +113,7 @@ func simplex(initialBasic []int, c []float64, A mat.Matrix, b []float64, tol flo
 			return math.NaN(), nil, nil, ErrSingular
 		}
 		for _, v := range x {
-			if v < 0 {
+			if v < -initPosTol {
 				return math.NaN(), nil, nil, ErrInfeasible
 			}
 		}
